@@ -82,6 +82,10 @@ def scenarios(ctx: Ctx, backend: str) -> List[Scenario]:
     S.append(Scenario(backend, "full_then_rerun", [inv([]), inv(["-r", "-d", "/data/again.root"])], **base))
     S.append(Scenario(backend, "d_values_are_taken_verbatim", [inv(["-c"]), inv(["-r", "-d", "root://eospublic.cern.ch//eos/opendata/f.root"]), inv(["-r", "-d", "https://host.example/data/x.root"]),
                                                                inv(["-r", "-d", "relative/dir/x.root"]), inv(["-r", "-d", "/data/abs.root"]), inv(["-r", "-d", "file:///data/u.root"])], **base))
+    # -o names a FILE that already exists (left by an earlier job / by someone else): it is replaced by this run's output
+    S.append(Scenario(backend, "output_file_already_exists", [inv(["-o", "/results/pre.root"], prepopulate="/results/pre.root"),
+                                                              inv(["-r", "-d", "/data/b.root", "-o", "/results/pre.root"]),
+                                                              inv(["-r", "-o", "/results/other.root"], prepopulate="/results/other.root")], **base))
     S.append(Scenario(backend, "rerun_without_build", [inv(["-r"])], **base))
     S.append(Scenario(backend, "bad_flags", [inv(["-x"]), inv(["-d"]), inv(["stray"]), inv(["-c", "stray"]), inv(["-r", "-z"]), inv(["-o", "/results", "extra", "args"])], **base))
     S.append(Scenario(backend, "filelist_in_cwd_only", [inv([])], filelist_in_cwd="/data/cwd.root\n"))
